@@ -103,6 +103,9 @@ func h14(tree int) {
 	valid := map[string]bool{"c": ndBool("valid.parent"), "s1": ndBool("valid.s1"), "s2": ndBool("valid.s2")}
 	enabled := map[string]bool{"c": true, "s1": true, "s2": true}
 	s1, s2 := newSub("s1"), newSub("s2")
+	if ndBool("s2.libraryChart") {
+		s2.Metadata.Type = "library" // a library chart's schema applies to its values like any other
+	}
 	var vals map[string]interface{}
 	switch tree {
 	case 0: // flat: s1 always on, s2 switched by s2.enabled
